@@ -223,6 +223,26 @@ func (e *Encoder) Value(v *Value) {
 	e.value(v)
 }
 
+// Define emits the class definition of x now (hoisting), if not emitted yet.
+func (e *Encoder) Define(x *Value) int { return e.classDef(x) }
+
+// FuncChooser decides by choice-point name.
+type FuncChooser func(point string, n int) int
+
+func (f FuncChooser) Choose(point string, n int) int {
+	if n <= 1 {
+		return 0
+	}
+	c := f(point, n)
+	if c < 0 {
+		c = 0
+	}
+	if c >= n {
+		c = n - 1
+	}
+	return c
+}
+
 func (e *Encoder) classDef(x *Value) int {
 	sig := classSig(x)
 	if i, ok := e.classIdx[sig]; ok {
